@@ -103,6 +103,13 @@ def case_strategy(draw: Any, proto: str) -> Dict[str, Any]:
         "sock": draw(st.sampled_from(["inet", "inet", "inet6", "unix"])),
         "truncate": truncate,
         "late_upload": late_upload,
+        # a second connection of the same worker, busy at the same time with requests of its
+        # own: nothing of either connection may show up in the other's applications
+        "twin": None if late_upload or draw(st.integers(0, 2)) else {
+            "at": draw(st.sampled_from([0.0, 0.0, 0.001, 0.5])),
+            "bodies": [draw(st.sampled_from([1, 300, 70000]))
+                       for _ in range(draw(st.integers(1, 2)))],
+            "split": draw(st.booleans())},
     }
 
 
@@ -274,7 +281,9 @@ def judge(case: Dict[str, Any], obs: Any) -> None:
     if conn.handler_exc is not None:
         raise Violation("handler_exception", repr(conn.handler_exc), backend=be)
     reqs = case["requests"]
-    insts = obs.instances
+    insts = [i for i in obs.instances if not str(i.scope.get("path", "")).startswith("/twin/")]
+    if case.get("twin"):
+        judge_twin(case, obs)
     if len(insts) != len(reqs):
         raise Violation(
             "instance_count", f"{len(insts)} instances for {len(reqs)} requests", backend=be)
@@ -291,6 +300,15 @@ def judge(case: Dict[str, Any], obs: Any) -> None:
             if got != want:
                 raise Violation("scope_mismatch", f"request {i}: scope[{key!r}] = {got!r}, "
                                 f"client sent {want!r}", backend=be, field=key)
+            live = inst.scope.get(key)  # the scope object itself, at the end of the session
+            if key == "headers":
+                live = [(bytes(n), bytes(v)) for n, v in live]
+            if isinstance(want, tuple) and isinstance(live, (list, tuple)):
+                live = tuple(live)
+            if live != want:
+                raise Violation("scope_changed_later", f"request {i}: scope[{key!r}] read "
+                                f"{want!r} when the application started and {live!r} at the "
+                                f"end", backend=be, field=key)
         body = body_of(req)
         truncated = case.get("truncate") is not None and i == len(reqs) - 1
         msgs = inst.received
@@ -330,6 +348,35 @@ def judge(case: Dict[str, Any], obs: Any) -> None:
                 raise Violation("unknown_message", f"request {i}: {m['type']}", backend=be)
 
 
+def twin_requests(case: Dict[str, Any]) -> List[Dict[str, Any]]:
+    return [{"method": "POST", "path": f"/twin/{k}", "query": None, "version": "1.1",
+             "headers": [["Host", "twin.example"], ["X-Twin", str(k)]], "framing": "cl",
+             "body": b2s(make_body(n, 200 + k))} for k, n in enumerate(case["twin"]["bodies"])]
+
+
+def judge_twin(case: Dict[str, Any], obs: Any) -> None:
+    be = obs.backend
+    reqs = twin_requests(case)
+    insts = [i for i in obs.instances if str(i.scope.get("path", "")).startswith("/twin/")]
+    if len(insts) != len(reqs):
+        raise Violation("instance_count", f"second connection: {len(insts)} instances for "
+                        f"{len(reqs)} requests", backend=be, conn="twin")
+    for k, (r, inst) in enumerate(zip(reqs, insts)):
+        want = expected_http_scope(r, raw_headers=case["cfg"]["h11_pass_raw_headers"])
+        sc = inst.scope_copy
+        got_h = [(bytes(n), bytes(v)) for n, v in sc.get("headers", [])]
+        if sc.get("path") != want["path"] or got_h != want["headers"] or \
+                sc.get("method") != "POST":
+            raise Violation("scope_mismatch", f"second connection, request {k}: "
+                            f"{sc.get('method')} {sc.get('path')} {got_h}", backend=be,
+                            field="twin")
+        got = b"".join(m.get("body", b"") for m in inst.received if m["type"] == "http.request")
+        if got != s2b(r["body"]):
+            raise Violation("body_mismatch", f"second connection, request {k}: application "
+                            f"received {len(got)} bytes, client sent {len(r['body'])}",
+                            backend=be, conn="twin")
+
+
 def programs_for(case: Dict[str, Any]) -> Dict[str, list]:
     programs = {"*": app_program(case["app"])}
     if case.get("late_upload"):
@@ -347,7 +394,27 @@ def run_case(case: Dict[str, Any]) -> CaseInfo:
     h1 = case["opening"].startswith("h1")
 
     async def scenario(env: Any) -> Any:
-        return await (scenario_h1(env, case) if h1 else scenario_h2(env, case))
+        twin = None
+        if case.get("twin"):
+            twin = env.connect()
+            data = b"".join(encode_request(r) for r in twin_requests(case))
+            cut = len(data) // 2 if case["twin"]["split"] else len(data)
+
+            async def first() -> None:
+                twin.send(data[:cut])
+
+            async def rest() -> None:
+                twin.send(data[cut:])
+
+            env.spawn_at(case["twin"]["at"], 0, first)
+            if cut < len(data):
+                env.spawn_at(case["twin"]["at"] + 0.25, 0, rest)
+        conn = await (scenario_h1(env, case) if h1 else scenario_h2(env, case))
+        if twin is not None:
+            await env.settle(50.0)
+            twin.eof()
+            await env.settle(50.0)
+        return conn
 
     for be in BACKENDS:
         obs = run_sim(be, cfg, programs, scenario, sched=case.get("sched", 0))
@@ -366,6 +433,8 @@ def run_case(case: Dict[str, Any]) -> CaseInfo:
         classes.append("truncated")
     if case.get("late_upload"):
         classes.append("late_upload")
+    if case.get("twin"):
+        classes.append("second_connection")
     if case["cfg"]["h11_pass_raw_headers"]:
         classes.append("raw_headers")
     nontrivial = (any(r["body_len"] > 0 for r in reqs) or case["seg"]["mode"] != "one"
